@@ -64,7 +64,8 @@ SPEC = {
         "Typer.registry_ignores_pipelines", "Typer.typeCheck_pipelines_map", "Typer.typeCheck_names_nodup",
         "Typer.typeCheck_delete_others", "Typer.independent_of_other_pipelines_file",
         "Typer.whole_file_one_result_per_block", "Typer.front_error_independent_of_mode",
-        "Typer.reported_entry_name_ignores_pipelines", "Typer.reported_entry_names_distinct"]],
+        "Typer.reported_entry_name_ignores_pipelines", "Typer.reported_entry_names_distinct",
+        "Typer.elabCore_depends_on_named_entries", "Typer.attributes_from_definition"]],
     "harness": "c17",
     "nontrivial": nontrivial,
     "harness_args": harness_args,
